@@ -474,9 +474,22 @@ DIR *opendir(const char *path) {
         pre(&r);
         ret = real_opendir(path);
         int e = errno;
+        if (ret) fd_set_path(dirfd(ret), path); /* fchmod(dirfd) after mkdir is a state-changing call */
         post(&r, ret ? 0 : -1, e);
     } else
         ret = real_opendir(path);
+    LEAVE();
+    return ret;
+}
+
+int closedir(DIR *d) {
+    REAL(closedir);
+    ENTER();
+    if (!_nested && d) {
+        int fd = dirfd(d);
+        if (fd_path(fd)) fd_set_path(fd, NULL);
+    }
+    int ret = real_closedir(d);
     LEAVE();
     return ret;
 }
